@@ -94,15 +94,16 @@ func (a *accumulator) WritePacket(pkt *Packet) (int, error) {
 		return 0, gots.ErrAccumulatorDone
 	}
 
-	var cpyPkt = &Packet{}
-	copy(cpyPkt[:], pkt[:])
-	a.packets = append(a.packets, cpyPkt)
-
 	if b, err := Payload(pkt); err != nil {
+		// a refused packet contributes nothing, neither bytes nor a list entry
 		return PacketSize, err
 	} else if _, err := a.buf.Write(b); err != nil {
 		return PacketSize, err
 	}
+
+	var cpyPkt = &Packet{}
+	copy(cpyPkt[:], pkt[:])
+	a.packets = append(a.packets, cpyPkt)
 
 	if done, err := a.f(a.buf.Bytes()); err != nil {
 		return PacketSize, err
